@@ -211,8 +211,9 @@ def run_check(modname, tier, seed, only_case=None):
     if more:
         print("  (+%d further distinct violations not replayed)" % more)
     if harness_errors:
-        for t, r in harness_errors[:5]:
-            print("HARNESS-ERROR task=%s result=%s" % (jdump(t)[:300], str(r)[:3000]))
+        for n_, (t, r) in enumerate(harness_errors[:3]):
+            print("HARNESS-ERROR task=%s result=%s" % (jdump(t)[:200], str(r)[-1500:] if n_ == 0 else str(r)[-200:]))
+        print("HARNESS-ERROR count=%d" % len(harness_errors))
         status = status or 2
     if nondeterministic:
         for v, rr in nondeterministic[:5]:
